@@ -9,7 +9,7 @@ from ..framework import result, ihash
 
 ID = "C11"
 LEVEL = "exploration"
-RUNS = {"quick": 1200, "thorough": 40000}
+RUNS = {"quick": 1800, "thorough": 40000}
 RULE = ("2-4 real threads of one process run init / require / add-cpu / set-rank / emit (payloads tagged with thread and sequence number) / "
         "jumbo / flush / attr / mark / free under the seeded scheduler, which parks and releases them at every libc call, every <stdatomic.h> "
         "operation and every API boundary; strategies per run (swarm): uniform random, PCT-style priorities with 1-3 change points, "
@@ -42,6 +42,10 @@ def gen(rng, tier, idx):
     knobs["clock_mode"] = r.choice([0, 1, 2, 3])
     knobs["strategy"] = r.weighted([(0, 40), (3, 30), (1, 15), (2, 15)])
     knobs["pct_depth"] = r.randint(1, 3)
+    if r.chance(15):
+        # close(2) of a stream interrupted by a signal: it reports EINTR although the descriptor is released, and another
+        # thread may be handed the same number right away
+        knobs["close_eintr_pct"] = r.choice([30, 100])
     p = rt.Plan(nth)
     p.knobs = knobs
     tids = [200 + 7 * t for t in range(nth)]
